@@ -23,7 +23,8 @@ ASSUMPTIONS = [
     "net with seeded weights) exposes any index, coefficient or ordering error",
     "all knots of the shape alphabet are dyadic, so d-fold bisection is exact in binary64 and breakpoints are compared exactly; "
     "helper-level requested knots 1/3, 5/8 and their midpoints are compared with tolerance 1e-14",
-    "helper level: when every requested knot already has multiplicity p there is nothing to insert and a GeomdlException is accepted",
+    "helper level: when every requested knot already has multiplicity p there is nothing to insert and a GeomdlException is accepted; "
+    "a requested value within 1e-12 of an existing knot is that knot (the library's multiplicity count is tolerance based)",
     "tolerance 1e-9 relative to max(1,|P|) between two exact evaluations",
 ]
 TOL = 1e-9
@@ -196,6 +197,9 @@ def _helper_one(ctx, case, desc, a, p, kv, rows_form, ctrl, build_def, d_orig, s
     req = sorted(set(kl + add))
     final = _bisect([F(x) for x in req], dens) if len(req) > 1 else [F(x) for x in req]
     U0 = [F(x) for x in kv]
+    # a requested value that meets an existing knot up to rounding (e.g. the midpoint of float(1/3) and 1/2 next to the knot
+    # 3/8) IS that knot: the library counts multiplicities with a tolerance, and the property does not ask for near-duplicates
+    final = [next((x for x in U0 if abs(x - k) <= F(1, 10 ** 12)), k) for k in final]
     need = [(k, p - R.multiplicity(U0, k)) for k in final]
     n0 = len(kv) - p - 1
     spans = R.nonempty_spans(p, U0)
